@@ -129,7 +129,7 @@ Proof. reflexivity. Qed.
 
 (* the cell at a position after prepareSheetXML: what was there, or a filler in the new region *)
 Lemma cell_at_prepare col rw sh col' rw' :
-  1 <= col -> 1 <= rw -> 1 <= col' -> 1 <= rw' ->
+  0 <= col -> 1 <= rw -> 1 <= col' -> 1 <= rw' ->
   cell_at (prepare_sheet_xml col rw sh) col' rw' =
   match cell_at sh col' rw' with
   | Some c => Some c
@@ -155,10 +155,10 @@ Proof.
 Qed.
 
 Lemma abs_prepare col rw sh col' rw' :
-  1 <= col -> 1 <= rw -> 1 <= col' -> 1 <= rw' ->
+  0 <= col -> 1 <= rw -> 1 <= col' -> 1 <= rw' ->
   abs (prepare_sheet_xml col rw sh) col' rw' = abs sh col' rw'.
 Proof.
-  intros. rewrite !abs_cell_at, cell_at_prepare by assumption.
+  intros. rewrite !abs_cell_at, cell_at_prepare by lia.
   destruct (cell_at sh col' rw'); [reflexivity|].
   destruct ((rw' =? rw) && (col' <=? col)); reflexivity.
 Qed.
@@ -212,7 +212,7 @@ Qed.
 Lemma Inv_empty : Inv empty_sheet.
 Proof. intros i r H. destruct i; discriminate. Qed.
 
-Lemma Inv'_prepare col rw sh : 1 <= col -> 1 <= rw -> Inv' sh -> Inv' (prepare_sheet_xml col rw sh).
+Lemma Inv'_prepare col rw sh : 0 <= col -> 1 <= rw -> Inv' sh -> Inv' (prepare_sheet_xml col rw sh).
 Proof.
   intros Hc Hr [H1 H2]. split.
   - intros i r Hi. rewrite prepare_rows, nth_error_upd, nth_error_ext_rows in Hi.
@@ -225,7 +225,7 @@ Proof.
     + destruct (nth_error (rows sh) i) as [r0|] eqn:Er.
       * inversion Hi; subst. eauto.
       * destruct (Z.of_nat i <? rw); [|discriminate]. inversion Hi; subst. reflexivity.
-  - intros col' rw' c Hc' Hr' Hat. rewrite cell_at_prepare in Hat by assumption.
+  - intros col' rw' c Hc' Hr' Hat. rewrite cell_at_prepare in Hat by lia.
     destruct (cell_at sh col' rw') as [c0|] eqn:E.
     + inversion Hat; subst. eauto.
     + destruct ((rw' =? rw) && (col' <=? col)); [|discriminate]. inversion Hat; subst. cbn. auto.
@@ -356,7 +356,7 @@ Lemma prepared_update col rw f sh :
     else cell_at (prepare_sheet_xml col rw sh) col' rw'.
 Proof.
   intros Hc Hr Hf HI. cbv zeta. split.
-  - apply Inv_Inv'. apply Inv'_upd_cell; try assumption. apply Inv'_prepare; try assumption. now apply Inv_Inv'.
+  - apply Inv_Inv'. apply Inv'_upd_cell; try assumption. apply Inv'_prepare; try assumption; [lia|]. now apply Inv_Inv'.
   - destruct (cell_at_prepare_target col rw sh Hc Hr) as (c0 & E0 & Hor).
     exists c0. split; [assumption|]. intros col' rw' Hc' Hr'.
     rewrite cell_at_upd_cell by assumption. rewrite E0. reflexivity.
@@ -384,7 +384,7 @@ Proof.
   exists (prepare_cell_style sh1 col rw (c_s c0)). intros col' rw' Hc' Hr'.
   rewrite abs_cell_at. fold sh1 in Hat. rewrite (Hat col' rw' Hc' Hr'). unfold grid_set.
   destruct ((col' =? col) && (rw' =? rw)); [reflexivity|].
-  rewrite <- abs_cell_at. unfold sh1. now apply abs_prepare.
+  rewrite <- abs_cell_at. unfold sh1. apply abs_prepare; lia.
 Qed.
 
 Lemma set_formula_spec col0 rw0 f sh :
@@ -402,7 +402,7 @@ Proof.
   split; [split; [exact HI'|exact HM]|]. split; [reflexivity|].
   intros col' rw' Hc' Hr' Hne. rewrite abs_cell_at, (Hat col' rw' Hc' Hr').
   assert (E : (col' =? col) && (rw' =? rw) = false) by lia. rewrite E.
-  rewrite <- abs_cell_at. now apply abs_prepare.
+  rewrite <- abs_cell_at. apply abs_prepare; lia.
 Qed.
 
 Lemma set_style_spec col rw s sh :
@@ -417,7 +417,7 @@ Proof.
   split; [split; [exact HI'|exact HM]|]. split; [reflexivity|].
   intros col' rw' Hc' Hr' Hne. rewrite abs_cell_at, (Hat col' rw' Hc' Hr').
   assert (E : (col' =? col) && (rw' =? rw) = false) by lia. rewrite E.
-  rewrite <- abs_cell_at. now apply abs_prepare.
+  rewrite <- abs_cell_at. apply abs_prepare; lia.
 Qed.
 
 (* ---------- save: trim then re-densify keeps the invariant and every observable ---------- *)
@@ -694,10 +694,10 @@ Proof.
   - (* row style *)
     destruct HW as [HI HM]. unfold set_row_style. split; [|exact HM].
     pose proof (proj1 (Inv_Inv' _) HI) as HI0.
-    pose proof (Inv'_prepare 1 rw sh ltac:(lia) Hok HI0) as HI1. apply Inv_Inv' in HI1.
+    pose proof (Inv'_prepare 0 rw sh ltac:(lia) Hok HI0) as HI1. apply Inv_Inv' in HI1.
     intros i r Hi. cbn [rows] in Hi. rewrite nth_error_upd in Hi.
     destruct (Nat.eqb i (Z.to_nat (rw - 1))).
-    + destruct (nth_error (rows (prepare_sheet_xml 1 rw sh)) i) as [r0|] eqn:E; [|discriminate].
+    + destruct (nth_error (rows (prepare_sheet_xml 0 rw sh)) i) as [r0|] eqn:E; [|discriminate].
       cbn in Hi. inversion Hi; subst r. cbn [r_r r_cells]. destruct (HI1 i r0 E) as [H1 H2]. split; [exact H1|].
       intros j c Hj. rewrite nth_error_map in Hj. destruct (nth_error (r_cells r0) j) as [c0|] eqn:E0; [|discriminate].
       cbn in Hj. inversion Hj; subst c. cbn. apply (H2 j c0 E0).
